@@ -687,6 +687,35 @@ class Gen:
                      f"loop(M={m_src}, changing={changing}, feedback={feedback}, refine={refine}, {v.type})[{j}]")
         return outs[0]
 
+    def do_scan(self):
+        """Scan: state + one scan input; the body sees the types the constructor prescribes for its
+        arguments and its internal Vars surface as scan outputs. (On a tree where `scan` rejects a
+        state of rank >= 1 the construction fails and the step is skipped.)"""
+        op, rng = self.op, self.rng
+        xs = self.pick(lambda v: self.rank(v) is not None and self.rank(v) >= 1)
+        st = self.pick(lambda v: self.rank(v) is not None)
+        if xs is None or st is None:
+            return None
+        sd = rng.randrange(1 << 30)
+
+        def body(s, x):
+            state = rng.getstate()
+            rng.seed(sd)
+            try:
+                u, _ = self.unary(x, safe=True)
+                return [op.identity(s), x, u]
+            finally:
+                rng.setstate(state)
+
+        try:
+            outs = op.scan([st, xs], body=body, num_scan_inputs=1)
+        except Exception:  # noqa: BLE001
+            self.note("scan-rejected", f"scan({st.type}, {xs.type}) rejected")
+            return None
+        for j, o in enumerate(outs):
+            self.add(o, "scan", f"scan({st.type}, {xs.type})[{j}]")
+        return None
+
     def do_inline(self):
         from spox import Tensor, argument, build, inline
 
@@ -778,8 +807,10 @@ class Gen:
                     self.do_if()
                 elif r < 0.90:
                     self.do_loop()
-                elif r < 0.96:
+                elif r < 0.95:
                     self.do_inline()
+                elif r < 0.97:
+                    self.do_scan()
                 else:
                     self.do_function()
         return self
